@@ -47,11 +47,14 @@ Definition frame (b : base) (msg : bytes) : bytes :=
 Inductive answer :=
 | Accept (n : N)      (* returns n: n >= 1 accepted (ANY n, also n > len data); n = 0 is "closed" *)
 | Neg                 (* returns a negative number *)
-| Raise.              (* raises (socket.error, ...) *)
+| Raise               (* raises (socket.error, socket.timeout of a send that waited in vain, ...) *)
+| NoCount.            (* returns None (no number at all: e.g. a transport that swallowed its exception and fell off the end):
+                         `n <= 0` raises TypeError before anything is sliced off - NEVER progress *)
 
 Inductive werr :=
 | SessionClose (unsent : bytes)     (* SessionCloseError(in_buf, data) *)
-| TransportExc (unsent : bytes).    (* the exception of the transport, propagated *)
+| TransportExc (unsent : bytes)     (* the exception of the transport, propagated *)
+| CompareExc (unsent : bytes).      (* TypeError of `n <= 0` on an answer that is no number, propagated *)
 
 Inductive wres :=
 | WDone                             (* while-loop left normally: data became empty *)
@@ -73,6 +76,7 @@ Fixpoint write_loop (data : bytes) (answers : list answer) {struct answers} : by
                (firstn k data ++ w, r, rest')
       | Neg :: rest => ([], WErr (SessionClose data), rest)
       | Raise :: rest => ([], WErr (TransportExc data), rest)
+      | NoCount :: rest => ([], WErr (CompareExc data), rest)
       end
   end.
 
